@@ -85,6 +85,45 @@ func runObligations(obls []*Obligation, o RunOpts) {
 					dumpQuery(o.DumpDir, ob.Name, q)
 				}
 				r := Solve(q, so)
+				if !ob.WantSat && r.Status != "unsat" && r.Status != "sat" && (strings.HasPrefix(ob.Goal, "(and ") || len(ob.Cases) > 1) {
+					// not decided as a whole: discharge it conjunct by conjunct and, where the state is a join of several
+					// paths, path by path (the path conditions are exhaustive under the obligation's pc)
+					cjs0 := splitConj(ob.Goal)
+					var cjs []string
+					if len(ob.Cases) > 1 && len(ob.Cases) <= 8 {
+						for _, cj := range cjs0 {
+							for _, cs := range ob.Cases {
+								cjs = append(cjs, tImp(cs, cj))
+							}
+						}
+					} else {
+						cjs = cjs0
+					}
+					if len(cjs) > 1 && len(cjs) <= 64 {
+						all := true
+						var tot int64 = r.Ms
+						var last SolveResult
+						for _, cj := range cjs {
+							o2 := *ob
+							o2.Goal = cj
+							rc := Solve(ob.Unit.Query(&o2), so)
+							tot += rc.Ms
+							last = rc
+							if rc.Status != "unsat" {
+								all = false
+								r = rc
+								r.Raw = "conjunct not discharged: " + clipStr(cj, 400) + "\n" + rc.Raw
+								break
+							}
+						}
+						if all {
+							r = last
+							r.Status = "unsat"
+							ob.Note = fmt.Sprintf("discharged piecewise (%d conjunct/path cases)", len(cjs))
+						}
+						r.Ms = tot
+					}
+				}
 				if !ob.WantSat && (r.Status == "unknown" || r.Status == "timeout") && !strings.Contains(ob.Goal, "(forall ") {
 					// look for a candidate counterexample without the quantified assumptions
 					so2 := so
@@ -335,3 +374,10 @@ func sortedKeys(m map[string]bool) []string {
 }
 
 func fmtDur(d time.Duration) string { return fmt.Sprintf("%.1fs", d.Seconds()) }
+
+func clipStr(s string, n int) string {
+	if len(s) > n {
+		return s[:n] + "…"
+	}
+	return s
+}
